@@ -226,6 +226,42 @@ def w_joint(arg):
     return acc.res()
 
 
+def w_prod(arg):
+    """three-way and higher conditions: the judged decoder's own fields at corner combinations against the FULL product of
+    every other field of the message over {0, mid-range} (thorough: {0, mid-range, all ones})."""
+    spec_i, three = arg
+    name, tc, st, flds, fexp = SPECS[spec_i]
+    acc = Acc()
+    others = []
+    for j, (n2, tc2, st2, flds2, _) in enumerate(SPECS):
+        if j != spec_i and tc2 == tc and st2 == st:
+            for (s2, l2) in flds2:
+                if all(not (s2 < s1 + l1 and s1 < s2 + l2) for s1, l1 in flds) and (s2, l2) not in others:
+                    others.append((s2, l2))
+    others = others[:12]
+
+    def vals(l):
+        top = (1 << l) - 1
+        return [0, top // 3 + 1] + ([top] if three else [])
+    own = list(itertools.product(*[corners(l) for s_, l in flds]))
+    keep = keepset(*[(a, a + b - 1) for a, b in flds], *[(a, a + b - 1) for a, b in others])
+    if st is not None:
+        keep |= {6, 7}
+    for combo in itertools.product(*[vals(l) for s_, l in others]):
+        extra = [(s_, l, v) for (s_, l), v in zip(others, combo)]
+        for values in own:
+            fields = [(s_, l, v) for (s_, l), v in zip(flds, values)] + extra
+            if st is not None:
+                fields.append((6, 2, st))
+            msg = vary_case(frame(tc, fields, 0, keep), acc.n)
+            acc.n += 1
+            s = judge_field(spec_i, values, msg)
+            if s:
+                acc.bad(s + ":in_the_product_of_the_other_fields", {"kind": "field", "spec": spec_i, "name": name, "values": list(values), "msg": msg})
+    acc.out.add(("prod", name, st, len(others)))
+    return acc.res()
+
+
 # ------------------------------------------------------------------ accuracy / integrity categories
 def judge_cat(kind, p):
     """category fields carried in TC19/29/31 and look-ups; returns signature or None."""
@@ -466,14 +502,14 @@ def w_tc28(_):
 def w_any(t):
     if t[0] == "e":
         return w_tc28(None)
-    return {"f": w_field, "c": w_cats, "l": w_lookups, "j": w_joint}[t[0]](t[1])
+    return {"f": w_field, "c": w_cats, "l": w_lookups, "j": w_joint, "x": w_prod}[t[0]](t[1])
 
 
 def run(ctx):
     import random
     rng = random.Random(ctx.seed)
     bgs = BGS + [rng.getrandbits(56) for _ in range(2)]
-    tasks = [("c", None), ("l", None), ("e", None)] + [("j", i) for i in range(len(SPECS))]
+    tasks = [("c", None), ("l", None), ("e", None)] + [("j", i) for i in range(len(SPECS))] + [("x", (i, ctx.thorough)) for i in range(len(SPECS))]
     for i, (name, tc, st, flds, fexp) in enumerate(SPECS):
         combos = list(itertools.product(*[range(1 << l) for s, l in flds]))
         sub = set(combos[:2] + combos[-2:] + combos[len(combos) // 2:len(combos) // 2 + 2])
@@ -489,7 +525,7 @@ def replay(case):
     k = case["kind"]
     if k == "field":
         s = judge_field(case["spec"], tuple(case["values"]), case["msg"])
-        return ([(s, case), (s + ":bg1", case), (s + ":depends_on_identity_code", case)] +
+        return ([(s, case), (s + ":bg1", case), (s + ":depends_on_identity_code", case), (s + ":in_the_product_of_the_other_fields", case)] +
                 [(s + ":joint_with_ME%d" % b_, case) for b_ in range(1, 57)]) if s else []
     if k == "cat":
         if case["sub"] == "mono":
